@@ -64,15 +64,18 @@ func (e *c12env) cleanup() {
 	os.RemoveAll(filepath.Join(e.root, fmt.Sprintf("r%d", e.dirN)))
 }
 
-func (e *c12env) baseline(inv gencore.Invocation) *baseline {
-	k := inv.Hash()
+func (e *c12env) baseline(inv gencore.Invocation) *baseline { return e.baselineF(inv, -1, "") }
+
+// baselineF is the sorted-order fresh run of inv with the given I/O error injected (faultAt < 0: none).
+func (e *c12env) baselineF(inv gencore.Invocation, faultAt int, kind string) *baseline {
+	k := inv.Hash() + fmt.Sprintf("/%d/%s", faultAt, kind)
 	if b, ok := e.base[k]; ok {
 		return b
 	}
 	in, out := e.freshDirs()
 	// sorted order everywhere: a zero tape
 	verifhook.Masked = nil
-	r := gencore.RunInProcess(inv, in, out, gencore.Sched{Tape: tape.Zero(), FaultAt: -1}, e.root)
+	r := gencore.RunInProcess(inv, in, out, gencore.Sched{Tape: tape.Zero(), FaultAt: faultAt, Kind: kind, TornNum: 1, TornDen: 2}, e.root)
 	b := &baseline{files: gencore.Snapshot(out), err: r.Err, panic: r.Panic}
 	for id, n := range r.Seen {
 		if n >= 2 {
@@ -119,6 +122,8 @@ type c12outcome struct {
 	toff     time.Duration
 	ambient  int
 	late     bool
+	faultAt   int
+	faultKind string
 	stall    bool // timers set by the generator have already expired when consulted
 	dirstate int // 0 empty out dir, 1 user Go files of the same package already there, 2 stale output of another invocation there
 	events   []string
@@ -129,6 +134,7 @@ type c12outcome struct {
 func (e *c12env) execC12(inv gencore.Invocation, other *gencore.Invocation, t *tape.Tape) c12outcome {
 	var o c12outcome
 	b := e.baseline(inv)
+	plain := b
 	regime := t.Choose(3, "regime")
 	var active map[int]bool
 	switch regime {
@@ -156,6 +162,20 @@ func (e *c12env) execC12(inv gencore.Invocation, other *gencore.Invocation, t *t
 	o.ambient = t.Choose(3, "ambient")
 	o.dirstate = t.Choose(3, "outdir-state")
 	o.stall = t.Choose(4, "stalled-process") == 1
+	o.faultAt, o.faultKind = -1, ""
+	if fk := t.Choose(8, "disk-fault"); fk >= 6 {
+		// the same I/O error at the same call in both runs: what a failing run reports and leaves behind must be reproducible too
+		o.faultKind = []string{"error", "short_write"}[fk-6]
+		o.faultAt = t.Choose(24, "fault-at")
+	}
+	if o.faultAt >= 0 && (o.h == 3 || o.h == 4) {
+		o.faultAt, o.faultKind = -1, "" // disk faults are combined with the in-process histories only
+	}
+	if o.faultAt >= 0 {
+		b = e.baselineF(inv, o.faultAt, o.faultKind)
+		o.dirstate = 0
+	}
+	_ = plain
 	verifhook.Masked = map[int]bool{}
 	for _, m := range e.masked {
 		verifhook.Masked[m] = true
@@ -215,7 +235,7 @@ func (e *c12env) execC12(inv gencore.Invocation, other *gencore.Invocation, t *t
 			}
 		}
 	} else {
-		r = gencore.RunInProcess(inv, in, out, gencore.Sched{Tape: t, Active: active, ClockOffset: o.toff, FaultAt: -1, Ambient: o.ambient, Stall: o.stall}, e.root)
+		r = gencore.RunInProcess(inv, in, out, gencore.Sched{Tape: t, Active: active, ClockOffset: o.toff, FaultAt: o.faultAt, Kind: o.faultKind, TornNum: 1, TornDen: 2, Ambient: o.ambient, Stall: o.stall}, e.root)
 	}
 	o.deviated = r.Deviated
 	o.events = r.Events
@@ -282,6 +302,9 @@ func (e *c12env) keyOf(o c12outcome) string {
 	if o.stall {
 		return "timer:fires-first-in-a-stalled-process"
 	}
+	if o.faultAt >= 0 {
+		return "failing-run:leftovers-or-outcome-differ-under-the-same-io-error"
+	}
 	if o.h != 0 {
 		return historyNames[o.h]
 	}
@@ -330,9 +353,9 @@ func runC12(job *Job, res *Result) {
 		if len(o.deviated) > 0 {
 			res.Counters["runs_with_deviating_order"]++
 		}
-		nontrivial := len(o.deviated) > 0 || o.h != 0 || o.toff != 0 || o.ambient != 0 || o.dirstate != 0 || o.stall
+		nontrivial := len(o.deviated) > 0 || o.h != 0 || o.toff != 0 || o.ambient != 0 || o.dirstate != 0 || o.stall || o.faultAt >= 0
 		if nontrivial && o.skipped == "" {
-			e.distinct[hash64(inv.Hash(), fmt.Sprint(o.deviated), strings.Join(o.events, "|"), fmt.Sprint(o.h, o.toff, o.ambient, o.dirstate, o.stall))] = true
+			e.distinct[hash64(inv.Hash(), fmt.Sprint(o.deviated), strings.Join(o.events, "|"), fmt.Sprint(o.h, o.toff, o.ambient, o.dirstate, o.stall, o.faultAt, o.faultKind))] = true
 		}
 		e.logH = hash64(fmt.Sprint(e.logH), fmt.Sprint(run), fmt.Sprint(t.Rec), fmt.Sprint(o.violated, o.class, o.detail), strings.Join(o.events, "|"))
 		if len(res.Samples) < 3 && len(o.deviated) > 0 {
@@ -434,7 +457,7 @@ func (e *c12env) shrinkC12(run int, inv gencore.Invocation, other *gencore.Invoc
 	e.masked = masked
 	o2 := e.execC12(inv, other, tr)
 	e.masked = nil
-	trace = append(trace, fmt.Sprintf("history=%s clock_offset=%s ambient=%d outdir_state=%d stalled=%v", historyNames[o2.h], o2.toff, o2.ambient, o2.dirstate, o2.stall))
+	trace = append(trace, fmt.Sprintf("history=%s clock_offset=%s ambient=%d outdir_state=%d stalled=%v io_error=%s@%d", historyNames[o2.h], o2.toff, o2.ambient, o2.dirstate, o2.stall, o2.faultKind, o2.faultAt))
 	trace = append(trace, o2.events...)
 	rp := Replay{Property: "C12", FindingKey: key, Seed: e.job.Seed, Run: run, Invocation: &inv, Tape: min, Masked: masked, Trace: trace,
 		Observed: o.class + ": " + o.detail, Expected: "byte-identical files to the sorted-order fresh run of the same invocation", SiteTable: e.job.Sites}
